@@ -311,12 +311,17 @@ def place_of(n, alias=None):
     """(decl id, field | None) of a local or of a field of a local of class type; None otherwise."""
     x = n.strip()
     did = fld = None
+
+    def through_ref(y):
+        # a reference parameter of a virtually inlined helper *is* the variable it is bound to
+        z = std_unwrap(y)
+        return z if (z.kind == "DeclRefExpr" and z.get("local")) else y
     if x.kind == "DeclRefExpr" and x.get("local"):
-        did = x.d["d"]
+        did = through_ref(x).d["d"]
     elif x.kind == "MemberExpr" and x.get("mk") == "Field" and not x.get("arrow") and x.children:
         b = x.children[0].strip()
         if b.kind == "DeclRefExpr" and b.get("local"):
-            did, fld = b.d["d"], x.m
+            did, fld = through_ref(b).d["d"], x.m
     if did is None:
         return None
     hops = 0
@@ -347,7 +352,7 @@ def bound_var(fn, call):
     if p.kind == "BinaryOperator" and p.op == "=" and p.children[1].id == n.id:
         l = p.children[0].strip()
         if l.kind == "DeclRefExpr" and l.get("local"):
-            return ("var", l.d["d"], p)
+            return ("var", place_of(l)[0], p)      # (through reference parameters of virtually inlined helpers)
         pl = place_of(l)
         if pl is not None and pl[1] is not None:
             return ("var", pl, p)          # a field of a local struct (e.g. a result record that is returned by value)
